@@ -160,6 +160,12 @@ def run_driver(binary, test, sched, out, env_extra=None, nruns=None, per_run_tim
         with open(out, 'a') as f:
             # make sure the cut-off line is terminated, then close the run
             f.write('\n')
+            # (the recorder writes a run's events when the run ends: of a run that killed the process nothing may have
+            # reached the file - it then gets a Cfg event of its own, so that the verdict names the run)
+            tail = [l for l in open(out).read().split('\n') if l.strip()]
+            open_run = bool(tail) and '"RunEnd"' not in tail[-1]
+            if not open_run:
+                f.write(json.dumps(dict(k='Cfg', n=999999, t=0, g=0, svc='', ch=0, seq=-1, st=-1, pid=ids[done], hex='', a=0, b=0, s='udp,bubble')) + '\n')
             ev = dict(k=kind, n=999999, t=0, g=-1, svc='', ch=-1, seq=-1, st=-1, pid=ids[done], hex='', a=-1, b=-1,
                       s=(txt.strip().splitlines() or [''])[0][:200])
             f.write(json.dumps(ev) + '\n')
